@@ -368,3 +368,206 @@ def sensitivity_seed(repo):
 
 
 CHILDREN.update({"snap_float_grid": snap_float_grid, "tools_files": tools_files, "sensitivity_seed": sensitivity_seed})
+
+
+# ------------------------------------------------------------------------------------------------
+def _percentile_linear(vals, q):
+    v = sorted(vals)
+    if not v:
+        return float("nan")
+    pos = (len(v) - 1) * q / 100.0
+    lo = int(pos)
+    hi = min(lo + 1, len(v) - 1)
+    return v[lo] + (v[hi] - v[lo]) * (pos - lo)
+
+
+def sim_recount(repo, seed=0, n=60):
+    """C06 bounded: the real run_simulator with recording wrappers around the workload, the scheduler and the executor;
+    every returned statistic is compared with an independent recount of the recorded arrivals, decisions and results
+    (completion = first tick at whose end every operator of the pipeline is COMPLETED, read from the per-operator table)."""
+    import math, random, collections
+    sys.path.insert(0, repo)
+    logging.disable(logging.CRITICAL)
+    import eudoxia.simulator as sim
+    from eudoxia.workload import WorkloadGenerator
+    from eudoxia.workload.pipeline import Pipeline, Segment
+    from eudoxia.workload.runtime_status import OperatorState
+    from eudoxia.utils import Priority
+    sys.path.insert(0, HERE)
+    from pyvc.native_scenarios import mk_pipeline
+    ns = {"Pipeline": Pipeline, "Segment": Segment, "Priority": Priority}
+    RealExec, RealSched = sim.Executor, sim.Scheduler
+    log = {}
+
+    class RecExec(RealExec):
+        def run_one_tick(self, suspensions, assignments):
+            res = super().run_one_tick(suspensions, assignments)
+            log["results"].append(list(res))
+            # completion observed from the per-operator table at the end of this tick
+            t = len(log["results"]) - 1
+            for p in log["arrived"]:
+                if id(p) not in log["finish"]:
+                    states = list(p.runtime_status().operator_states.values())
+                    if all(s == OperatorState.COMPLETED for s in states):
+                        log["finish"][id(p)] = t
+            return res
+
+    class RecSched(RealSched):
+        def run_one_tick(self, results, new_pipelines):
+            sus, asg = super().run_one_tick(results, new_pipelines)
+            log["decisions"].append((list(sus), list(asg)))
+            return sus, asg
+
+    class RecWorkload:
+        def __init__(self, inner):
+            self.inner = inner
+        def run_one_tick(self):
+            out = self.inner.run_one_tick()
+            t = len(log["arrivals"])
+            log["arrivals"].append(list(out))
+            for p in out:
+                log["arrived"].append(p)
+                log["arrival_tick"][id(p)] = t
+            return out
+
+    class ListWorkload:
+        def __init__(self, by_tick):
+            self.by_tick, self.t = by_tick, -1
+        def run_one_tick(self):
+            self.t += 1
+            return self.by_tick.get(self.t, [])
+
+    sim.Executor, sim.Scheduler = RecExec, RecSched
+    problems, runs, crashed = [], 0, 0
+    rng = random.Random(seed)
+    try:
+        for case in range(n):
+            algo = rng.choice(["naive", "priority", "priority-pool", "overbook"])
+            tps = rng.choice([1, 10, 100])
+            multi = rng.random() < 0.5 if algo != "priority-pool" else True
+            params = dict(duration=rng.choice([0.5, 3, 20, 60]), ticks_per_second=tps, scheduler_algo=algo,
+                          num_pools=2 if algo == "priority-pool" else rng.choice([1, 2]), cpus_per_pool=rng.choice([2, 8, 32]),
+                          ram_gb_per_pool=rng.choice([16, 64, 256]), multi_operator_containers=multi,
+                          allow_memory_overcommit=(algo == "overbook"), random_seed=rng.randint(0, 10**6),
+                          waiting_seconds_mean=rng.choice([0.2, 1.0, 5.0]), num_pipelines=rng.choice([1, 3]), num_operators=rng.choice([1, 3, 6]))
+            full = sim.parse_args_with_defaults(dict(params))
+            max_ticks = int(full["duration"] * tps)
+            if rng.random() < 0.5:
+                inner = WorkloadGenerator(**full)
+            else:
+                by_tick, r2 = {}, random.Random(rng.randint(0, 10**6))
+                for j in range(r2.randint(1, 6)):
+                    p, _ops = mk_pipeline(ns, r2, f"r{case}_{j}", zero_ok=r2.random() < 0.5)
+                    p._runtime_status = None      # arrival is recorded by the simulator on a fresh status
+                    by_tick.setdefault(r2.choice([0, 0, 1, 2, max(0, max_ticks // 2)]), []).append(p)
+                inner = ListWorkload(by_tick)
+            log.clear()
+            log.update(results=[], decisions=[], arrivals=[], arrived=[], arrival_tick={}, finish={})
+            try:
+                stats = sim.run_simulator(dict(params), workload=RecWorkload(inner))
+            except Exception as e:      # whether a run ends at all is C08's subject, not this check's
+                crashed += 1
+                continue
+            runs += 1
+            bad = []
+            def eq(name, got, want):
+                ok = (got == want) or (isinstance(got, float) and isinstance(want, float) and ((math.isnan(got) and math.isnan(want)) or math.isclose(got, want, rel_tol=1e-9, abs_tol=1e-12)))
+                if not ok:
+                    bad.append((name, got, want))
+            arrivals = [p for a in log["arrivals"] for p in a]
+            res = [r for rr in log["results"] for r in rr]
+            eq("pipelines_created", stats.pipelines_created, len(arrivals))
+            eq("assignments", stats.assignments, sum(len(a) for _s, a in log["decisions"]))
+            eq("suspensions", stats.suspensions, sum(len(s) for s, _a in log["decisions"]))
+            eq("failures", stats.failures, sum(1 for r in res if r.error is not None))
+            eq("failure_error_counts", dict(stats.failure_error_counts), dict(collections.Counter(r.error for r in res if r.error is not None)))
+            ok_res = sum(1 for r in res if r.error is None)
+            eq("containers_completed", stats.containers_completed, ok_res)
+            eq("throughput", float(stats.throughput), ok_res / full["duration"])
+            tot_a = tot_c = 0
+            for pr, ps in ((Priority.QUERY, stats.pipelines_query), (Priority.INTERACTIVE, stats.pipelines_interactive), (Priority.BATCH_PIPELINE, stats.pipelines_batch), (None, stats.pipelines_all)):
+                mine = [p for p in arrivals if pr is None or p.priority == pr]
+                lat = [log["finish"][id(p)] - log["arrival_tick"][id(p)] for p in mine if id(p) in log["finish"]]
+                tag = pr.name if pr else "ALL"
+                eq(f"{tag}.arrival_count", ps.arrival_count, len(mine))
+                eq(f"{tag}.completion_count", ps.completion_count, len(lat))
+                eq(f"{tag}.mean_latency_seconds", float(ps.mean_latency_seconds), (sum(lat) / len(lat) / tps) if lat else float("nan"))
+                eq(f"{tag}.p99_latency_seconds", float(ps.p99_latency_seconds), (_percentile_linear(lat, 99) / tps) if lat else float("nan"))
+                if pr is not None:
+                    tot_a += ps.arrival_count; tot_c += ps.completion_count
+            eq("partition.arrivals", tot_a, stats.pipelines_all.arrival_count)
+            eq("partition.completions", tot_c, stats.pipelines_all.completion_count)
+            for p in arrivals:
+                rs = p.runtime_status()
+                eq("arrival_tick", rs.arrival_tick, log["arrival_tick"][id(p)])
+                eq("finish_tick", rs.finish_tick, log["finish"].get(id(p)))
+            if bad:
+                problems.append({"case": case, "params": params, "mismatches": [(a, repr(b), repr(c)) for a, b, c in bad[:4]]})
+    finally:
+        sim.Executor, sim.Scheduler = RealExec, RealSched
+    kinds = {}
+    for pb in problems:
+        for m in pb["mismatches"]:
+            kinds[m[0]] = kinds.get(m[0], 0) + 1
+    return {"name": "bounded:stats-recount", "ok": not problems, "bounded": f"{n} random runs (4 schedulers, tick rates 1/10/100, generated and hand-built DAG workloads)",
+            "cases": runs, "runs_that_raised_and_were_skipped": crashed, "kinds": kinds, "finding_kinds": sorted(kinds), "witness": problems[:2],
+            "detail": "returned statistics equal the recount" if not problems else f"mismatches: {kinds}"}
+
+
+def sim_uncontended(repo, seed=0, n=60):
+    """C06 bounded: one pipeline alone on a pool that fits it finishes after exactly the ticks its operators need:
+    latency = sum over operators of max(1, ticks of its segments) - 1 (the first tick is the arrival tick)."""
+    import random
+    sys.path.insert(0, repo)
+    logging.disable(logging.CRITICAL)
+    import eudoxia.simulator as sim
+    from eudoxia.workload.pipeline import Pipeline, Segment
+    from eudoxia.utils import Priority
+    rng = random.Random(seed)
+    problems = []
+
+    class One:
+        def __init__(self, at, p):
+            self.at, self.p, self.t = at, p, -1
+        def run_one_tick(self):
+            self.t += 1
+            return [self.p] if self.t == self.at else []
+    for case in range(n):
+        tps = rng.choice([1, 2, 10, 100])
+        tl = 1.0 / tps
+        p = Pipeline(f"u{case}", rng.choice(list(Priority)))
+        prev, need = None, []
+        for _ in range(1 if p.priority == Priority.QUERY and rng.random() < 0.5 else rng.randint(1, 4)):
+            op = p.new_operator([prev] if prev else None)
+            k = 0
+            for _s in range(rng.randint(1, 3)):
+                cpu, read = rng.choice([0, 0.004, 0.5, 1, 2.5]), rng.choice([0, 0.1, 20, 30])
+                op.add_segment(Segment(baseline_cpu_seconds=cpu, cpu_scaling="const", memory_gb=rng.choice([None, 1]), storage_read_gb=read))
+                k += int((read / 20) / tl) + int(cpu / tl)
+            need.append(max(1, k))
+            prev = op
+        algo = rng.choice(["naive", "priority", "overbook"])
+        multi = rng.random() < 0.5
+        at = rng.choice([0, 1, 5])
+        try:
+            sim.run_simulator(dict(duration=(sum(need) + at + 5) / tps + 1, ticks_per_second=tps, scheduler_algo=algo, num_pools=1, cpus_per_pool=16,
+                                   ram_gb_per_pool=500, multi_operator_containers=multi, allow_memory_overcommit=(algo == "overbook")), workload=One(at, p))
+        except Exception as e:
+            problems.append({"case": case, "raised": repr(e)[:200]})
+            continue
+        rs = p.runtime_status()
+        lat = None if rs.finish_tick is None else rs.finish_tick - rs.arrival_tick
+        exp = sum(need) - 1
+        # schedulers that start one operator per container in single-operator mode need one more scheduling round per further operator
+        if lat != exp:
+            problems.append({"case": case, "algo": algo, "multi": multi, "tps": tps, "need": need, "latency": lat, "expected": exp})
+    kinds = {}
+    for pb in problems:
+        k = "raised" if "raised" in pb else "latency-differs"
+        kinds[k] = kinds.get(k, 0) + 1
+    return {"name": "bounded:uncontended-latency", "ok": not problems, "bounded": f"{n} single-pipeline runs (chains of 1..4 operators, 1..3 segments each)",
+            "cases": n, "kinds": kinds, "finding_kinds": sorted(kinds), "witness": problems[:3],
+            "detail": "latency equals the operators' ticks" if not problems else str(kinds)}
+
+
+CHILDREN.update({"sim_recount": sim_recount, "sim_uncontended": sim_uncontended})
